@@ -318,13 +318,16 @@ def final_reads(x, props, label='final'):
             read(x, x.o, p, f'{label} other')
 
 
-def _canary(x, prop='H'):
+def _canary(x, prop='H', hot=False):
     """Deliberately wrong: the value read after the history equals the value at another temperature."""
     w = x.w; s = x.s
     val = getattr(s, prop)
-    f = fresh_of(s)
-    f.T = s.T + 1.
-    w.canary(f'canary: {prop} equals the value of a stream 1 K hotter', w.eq(val, getattr(f, prop)))
+    ref = getattr(fresh_of(s), prop)
+    w.canary(f'canary: {prop} = value on a fresh stream + 1', w.eq(val, ref + 1.))
+    if hot:
+        f = fresh_of(s)
+        f.T = s.T + 1.
+        w.canary(f'canary: {prop} equals the value of a stream 1 K hotter', w.eq(val, getattr(f, prop)))
 
 
 # --------------------------------------------------------------------------- (1) _get_property from every reachable memo state
@@ -347,12 +350,21 @@ def getprop_configs(tier):
         for prime in primes:
             for mv in moves:
                 if not prime and mv != 'same': continue
-                firsts = ALLP if (tier == 'thorough' or (mv in ('same', 'all', 'T', 'comp') and len(prime) <= 1)) else ('H', 'sigma', 'V')
+                if tier == 'thorough' or (mv in ('same', 'all', 'T', 'comp') and len(prime) <= 1):
+                    firsts = PRIMARY
+                else:
+                    firsts = ('H', 'sigma', 'V')
                 for first in firsts:
-                    if mv == 'empty' and first in DERIVED: continue
-                    if tier == 'quick' and first in ('h', 'C', 'epsilon', 'Hvap', 'nu', 'Pr', 'alpha') and mv != 'same': continue
                     out.append({'name': f'kind={kind};prime={"+".join(prime) or "none"};move={mv};read={first}',
-                                'kind': kind, 'prime': list(prime), 'move': mv, 'first': first})
+                                'kind': kind, 'prime': list(prime), 'move': mv, 'first': first, 'derived': False})
+    # the quantities derived from the memoised ones (stateless functions of them and of MW): fewer structures
+    for kind in (['l'] if tier == 'quick' else ['l', 'g', 'gl']):
+        for prime in [(), ('V',), ('Cn', 'mu', 'kappa')]:
+            for mv in (['same', 'T'] if tier == 'quick' else ['same', 'T', 'comp', 'total', 'phase' if len(kind) == 1 else 'toSingle']):
+                if not prime and mv != 'same': continue
+                for first in DERIVED:
+                    out.append({'name': f'kind={kind};prime={"+".join(prime) or "none"};move={mv};read={first}',
+                                'kind': kind, 'prime': list(prime), 'move': mv, 'first': first, 'derived': True})
     return out
 
 
@@ -371,7 +383,7 @@ def get_property(w, cfg):
     read(x, x.s, first, 'first')
     # second read of the same property (memo hit) and then every other property from the memo state just established
     read(x, x.s, first, 'again')
-    rest = [p for p in (PRIMARY if cfg['move'] == 'empty' else ALLP) if p != first]
+    rest = [p for p in (ALLP if cfg['derived'] else PRIMARY) if p != first]
     for p in rest:
         read(x, x.s, p, 'then')
     if cfg['move'] != 'empty':
